@@ -362,16 +362,36 @@ def new_scalar(m, v):
     return X.Ptr(m.new_obj(None, tree=[[], widen_limbs(v)], label='Scalar'), ())
 
 
+def field_index(m, tstr, name):
+    P = m.prog
+    tid = P.tid_by_str[tstr]
+    for i, f in enumerate(P.under(tid)['fields']):
+        if f['name'] == name:
+            return i
+    raise X.Unsupported("type %s has no field %s" % (tstr, name))
+
+
+def fld(m, ptr, tstr, name):
+    """value of field `name` of the struct (type string tstr) that ptr points to -- by name, so that the harness does
+    not depend on the field layout of the key types"""
+    return m.load(ptr)[field_index(m, tstr, name)]
+
+
+PUB_T = MOD + '/secec.PublicKey'
+PRIV_T = MOD + '/secec.PrivateKey'
+
+
 def new_public_key(m, k):
-    """a PublicKey object satisfying the type's invariant for point index k (k != 0 assumed by caller)"""
-    toy = m.toy
-    pb = [4] + be32(toy.X(k)) + be32(toy.Y(k))
-    pt = m.toy_newpt(k)
-    o = m.new_obj(None, tree=[[], pt, m.new_byte_slice(pb, 'pointBytes')], label='PublicKey')
-    return X.Ptr(o, ())
+    """a PublicKey for point index k (k != 0 assumed by the caller), built by the real constructor"""
+    key, err = m.call(MOD + '/secec.NewPublicKeyFromPoint', [m.toy_newpt(k)])
+    if err is not None:
+        raise X.Infeasible()
+    return key
 
 
 def new_private_key(m, d):
-    pub = new_public_key(m, d)
-    o = m.new_obj(None, tree=[[], new_scalar(m, d), pub], label='PrivateKey')
-    return X.Ptr(o, ())
+    """a PrivateKey for scalar d in [1,n'), built by the real constructor"""
+    key, err = m.call(MOD + '/secec.NewPrivateKeyFromScalar', [new_scalar(m, d)])
+    if err is not None:
+        raise X.Infeasible()
+    return key
